@@ -341,6 +341,191 @@ func replay(sys actor.ActorSystem, behaviours []behaviour, w *vtrace.Writer, st 
 	w.Raw(map[string]any{"ev": "New", "id": 0, "g": 0, "t": ""})
 }
 
+// ---------------------------------------------------------------- explore: random schedules over the REAL code's gates
+//
+// No model prescribes the order here: at every step a seeded scheduler picks one of the logical
+// threads parked at a gate (producers, adopted dispatcher workers, the restarter/stopper/pill sender)
+// and lets it run to its next gate. This explores interleavings of whatever steps the code under test
+// actually has (also when it no longer follows ActorTurn.tla); TurnMonitor.tla judges the events.
+func explore(sys actor.ActorSystem, runs, nprod, nmsgs int, seed int64, w *vtrace.Writer, mode int, st *stats) {
+	ctx := context.Background()
+	rng := rand.New(rand.NewSource(seed))
+	rec := &recorder{w: w}
+	for run := 0; run < runs; run++ {
+		w.Raw(map[string]any{"ev": "New", "id": 0, "g": 0, "t": ""})
+		pid, err := sys.Spawn(ctx, "x"+strconv.Itoa(run), &testActor{r: rec}, actor.WithLongLived())
+		if err != nil {
+			fatal("spawn", err)
+		}
+		if !waitQuiescent(pid, 3*time.Second) {
+			fatal("actor did not become idle after spawn")
+		}
+		s := sched.New()
+		s.Watchdog = 2 * time.Second
+		ds := actor.VerifSchedStateOf(pid)
+		user, system := actor.VerifMailboxesOf(pid)
+		s.Control(ds)
+		s.Control(user)
+		s.Control(system)
+		s.AdoptAt("ds.take.cas", "t")
+		s.DetachAt("turn.end")
+		s.SkipPoints("turn.begin", "turn.release")
+		s.Obs = func(thread, point string, obj any, a, bb int64) {
+			switch point {
+			case "turn.begin":
+				w.Emit(map[string]any{"ev": "begin", "id": int(a), "g": 0, "t": thread})
+			case "turn.release":
+				w.Emit(map[string]any{"ev": "release", "id": int(a), "g": 0, "t": thread})
+			}
+		}
+		rec.s.Store(s)
+		var names []string
+		for p := 1; p <= nprod; p++ {
+			p := p
+			name := "p" + strconv.Itoa(p)
+			names = append(names, name)
+			s.Go(name, func() {
+				for k := 1; k <= nmsgs; k++ {
+					s.Yield("call", 0, 0)
+					id := p*10 + k
+					err := actor.Tell(ctx, pid, &Msg{ID: id})
+					ok := 0
+					if err == nil {
+						ok = 1
+					}
+					w.Emit(map[string]any{"ev": "tellret", "id": id, "g": ok, "t": name})
+				}
+			})
+		}
+		switch mode {
+		case 1:
+			names = append(names, "r")
+			s.Go("r", func() {
+				s.Yield("rcall", 0, 0)
+				w.Emit(map[string]any{"ev": "restartcall", "id": 0, "g": 0, "t": "r"})
+				_ = pid.Restart(ctx)
+				w.Emit(map[string]any{"ev": "restartret", "id": 0, "g": 1, "t": "r"})
+			})
+		case 2:
+			names = append(names, "s")
+			s.Go("s", func() {
+				s.Yield("scall", 0, 0)
+				w.Emit(map[string]any{"ev": "stopcall", "id": 0, "g": 0, "t": "s"})
+				_ = pid.Shutdown(ctx)
+				w.Emit(map[string]any{"ev": "stopret", "id": 0, "g": 1, "t": "s"})
+			})
+		case 3:
+			names = append(names, "k")
+			s.Go("k", func() {
+				s.Yield("kcall", 0, 0)
+				w.Emit(map[string]any{"ev": "pillcall", "id": 0, "g": 0, "t": "k"})
+				_ = actor.Tell(ctx, pid, new(actor.PoisonPill))
+			})
+		}
+		// PCT-style priorities: a thread keeps running until a priority change point
+		prio := map[string]int{}
+		for _, n := range names {
+			prio[n] = rng.Intn(1000)
+		}
+		changeAt := map[int]bool{}
+		for i := 0; i < 4; i++ {
+			changeAt[rng.Intn(120)] = true
+		}
+		blocked := map[string]bool{}
+		lockHolder := ""
+		idle := 0
+		for step := 0; step < 600; step++ {
+			// newly adopted workers
+			for {
+				n, ok := s.WaitAdopted(300 * time.Microsecond)
+				if !ok {
+					break
+				}
+				names = append(names, n)
+				prio[n] = rng.Intn(1000)
+			}
+			// threads released earlier that were blocked inside the code
+			for n := range blocked {
+				if _, ok := s.TryAwait(n, 0); ok {
+					delete(blocked, n)
+				}
+			}
+			var cands []string
+			for _, n := range names {
+				pd, parked := s.Pending(n)
+				if !parked || pd.Done || blocked[n] {
+					continue
+				}
+				if pd.Point == "restart.wait" && actor.VerifSchedValue(pid) == 2 {
+					continue // would spin until the worker leaves
+				}
+				if pd.Point == "stop.lock" && lockHolder != "" && lockHolder != n {
+					continue // would block on stopLocker
+				}
+				cands = append(cands, n)
+			}
+			if len(cands) == 0 {
+				idle++
+				if idle > 20 && len(blocked) == 0 {
+					break
+				}
+				time.Sleep(200 * time.Microsecond)
+				continue
+			}
+			idle = 0
+			if changeAt[step] || rng.Intn(12) == 0 {
+				prio[cands[rng.Intn(len(cands))]] = rng.Intn(1000)
+			}
+			best := cands[0]
+			for _, n := range cands {
+				if prio[n] > prio[best] {
+					best = n
+				}
+			}
+			before, _ := s.Pending(best)
+			if err := s.Release(best); err != nil {
+				continue
+			}
+			after, ok := s.TryAwait(best, 30*time.Millisecond)
+			st.Steps++
+			if !ok {
+				blocked[best] = true
+				continue
+			}
+			// hand-off windows: a thread that has just given up ownership (ds.reset) or has just entered the
+			// handler is often left behind so that the others can race through the window it opened
+			if (before.Point == "ds.reset" || before.Point == "h.enter" || before.Point == "ds.yield") && rng.Intn(2) == 0 {
+				prio[best] = -1 - rng.Intn(1000)
+			}
+			if before.Point == "stop.lock" && after.Point == "ps.enter" {
+				lockHolder = best
+			}
+			if before.Point == "ps.exit" {
+				lockHolder = ""
+			}
+		}
+		s.FreeRun()
+		s.Join(5 * time.Second)
+		qd := 3 * time.Second
+		if mode >= 2 {
+			qd = 300 * time.Millisecond
+		}
+		q := waitQuiescent(pid, qd)
+		qi := 0
+		if q {
+			qi = 1
+		} else if mode < 2 {
+			st.NotIdle++
+		}
+		w.Emit(map[string]any{"ev": "End", "id": qi, "g": 0, "t": ""})
+		rec.s.Store(nil)
+		s.Close()
+		_ = pid.Shutdown(ctx)
+		st.Behaviours++
+	}
+	w.Raw(map[string]any{"ev": "New", "id": 0, "g": 0, "t": ""})
+}
+
 // ---------------------------------------------------------------- stress (free-running, real workers)
 
 func newMailboxOpt(kind string) actor.SpawnOption {
@@ -517,6 +702,25 @@ func main() {
 		budget, _ := strconv.Atoi(os.Args[4])
 		sys := mk(budget)
 		replay(sys, behaviours, w, st)
+		st.Events = w.Count()
+		w.Close()
+		_ = sys.Stop(ctx)
+	case "explore":
+		if len(os.Args) != 9 {
+			fatal("usage: actorturn explore <runs> <producers> <msgs> <seed> <trace> <budget> <mode>")
+		}
+		runs, _ := strconv.Atoi(os.Args[2])
+		nprod, _ := strconv.Atoi(os.Args[3])
+		nmsgs, _ := strconv.Atoi(os.Args[4])
+		seed, _ := strconv.ParseInt(os.Args[5], 10, 64)
+		w, err := vtrace.Create(os.Args[6])
+		if err != nil {
+			fatal(err)
+		}
+		budget, _ := strconv.Atoi(os.Args[7])
+		mode, _ := strconv.Atoi(os.Args[8])
+		sys := mk(budget)
+		explore(sys, runs, nprod, nmsgs, seed, w, mode, st)
 		st.Events = w.Count()
 		w.Close()
 		_ = sys.Stop(ctx)
